@@ -9,7 +9,7 @@ import (
 func init() { register("C08", checkC08) }
 
 var c08Origins = []string{"literal", "literal-raw", "file", "stdin", "stdin-prompt", "cmd"}
-var c08Paths = []string{"print", "assign", "concat", "compare", "arg", "return", "slice-store", "slice-literal", "slice-load-copy", "range-string", "range-slice", "subscript", "len", "write"}
+var c08Paths = []string{"print", "assign", "concat", "compare", "arg", "arg-direct", "return", "slice-store", "slice-literal", "slice-load-copy", "range-string", "range-slice", "subscript", "len", "write"}
 
 // c08Program builds the program for one (origin, path) with value v. ok=false
 // when the combination is not defined (e.g. a raw literal cannot hold a backquote).
@@ -49,6 +49,14 @@ func c08Program(origin, path, v, place string) (bc BashCase, ok bool) {
 		stmts = append(stmts, VarDecl{Names: []string{"v", "ve", "vc"}, Short: true, Values: []Expr{AppCall{[]AppStage{{Name: "cat", Args: []Expr{sl("in.txt")}}}}}})
 	}
 	V := vr("v")
+	// the value expression itself (a literal for the literal origins): used where the value must reach a
+	// position without passing through a variable first
+	var direct Expr = V
+	if len(stmts) > 0 {
+		if d, ok := stmts[len(stmts)-1].(VarDecl); ok && len(d.Names) == 1 && d.Names[0] == "v" && len(d.Values) == 1 {
+			direct = d.Values[0]
+		}
+	}
 	switch path {
 	case "print":
 		stmts = append(stmts, pr(V), pr(sl("next")))
@@ -61,6 +69,18 @@ func c08Program(origin, path, v, place string) (bc BashCase, ok bool) {
 	case "arg":
 		stmts = append([]Stmt{fn("show", []Param{{"p", TString}, {"q", TString}}, nil, pr(vr("p")), pr(vr("q")))}, stmts...)
 		stmts = append(stmts, callS("show", V, sl("second")))
+	case "arg-direct":
+		if origin == "cmd" {
+			return bc, false // three-valued, cannot stand in an argument list
+		}
+		// the defining statement of v is dropped: the value expression stands directly in the argument lists
+		stmts = stmts[:len(stmts)-1]
+		stmts = append([]Stmt{fn("show", []Param{{"p", TString}, {"q", TString}}, nil, pr(vr("p")), pr(vr("q"))), fn("idf", []Param{{"p", TString}}, []Type{TString}, ret(vr("p")))}, stmts...)
+		if origin == "stdin" || origin == "stdin-prompt" {
+			stmts = append(stmts, callS("show", direct, sl("second")), pr(sl("end")))
+		} else {
+			stmts = append(stmts, callS("show", direct, sl("second")), callS("show", sl("first"), direct), pr(call("idf", direct)), def("kept", call("idf", direct)), pr(vr("kept")), pr(bin("+", call("idf", direct), sl("|"))))
+		}
 	case "return":
 		stmts = append([]Stmt{fn("id", []Param{{"p", TString}}, []Type{TString}, ret(vr("p"))), fn("two", []Param{{"p", TString}}, []Type{TString, TString}, ret(sl("k"), vr("p")))}, stmts...)
 		stmts = append(stmts, pr(call("id", V)), VarDecl{Names: []string{"r1", "r2"}, Short: true, Values: []Expr{call("two", V)}}, pr(vr("r2")), pr(vr("r1")))
@@ -162,7 +182,7 @@ var c08Payloads = map[string]string{
 }
 
 func checkC08(c *Check) {
-	c.Rule = "table: origin (literal interpreted/raw, file via read, stdin via input, command output via @cat) x data path (14: print, assign, concat, compare, argument, return, slice store, slice literal, slice load via copy, range over string, range over slice, subscript, len, write) x character (95 printable ASCII, newline, tab) x position (first, middle, last, only) x place (top level, function body, two blocks deep inside a function), one program per cell, plus a payload list (command substitution, backticks, option-like words, globs, redirections, history, blanks) on every path x origin and random strings (thorough); each program runs under real bash in a sandbox; oracle = reference stdout/exit, empty stderr and the complete sandbox file system (any file the reference does not predict, e.g. a CANARY created by executed data, is a violation). Non-trivial = every cell; distinct = SHA-256 of source + stdin + files"
+	c.Rule = "table: origin (literal interpreted/raw, file via read, stdin via input, command output via @cat) x data path (15: print, assign, concat, compare, argument via a variable, argument written directly in the call, return, slice store, slice literal, slice load via copy, range over string, range over slice, subscript, len, write) x character (95 printable ASCII, newline, tab) x position (first, middle, last, only) x place (top level, function body, two blocks deep inside a function), one program per cell, plus a payload list (command substitution, backticks, option-like words, globs, redirections, history, blanks) on every path x origin and random strings (thorough); each program runs under real bash in a sandbox; oracle = reference stdout/exit, empty stderr and the complete sandbox file system (any file the reference does not predict, e.g. a CANARY created by executed data, is a violation). Non-trivial = every cell; distinct = SHA-256 of source + stdin + files"
 	c.Assumptions = []string{"reference interpreter treats strings as byte vectors", "run-time origins skip values ending in a newline (the origin APIs drop it, C17/C18)", "Batch target not claimed"}
 	runProbes(c, bashProbeJudge)
 	cases := []BashCase{}
